@@ -10,6 +10,7 @@
 #include <cmath>
 #include <string>
 #include <vector>
+#include <thread>
 #include <random>
 #include <iostream>
 #include "tfhe.h"
@@ -76,6 +77,7 @@ int main() {
         } else if (opc == 1 || opc == 2) {
             int n = v[0]; LweParams *lp = mk_lwe_params(n, alpha, a[4]); LweKey *k = new_LweKey(lp); LweSample *c = new_LweSample(lp);
             for (int i = 0; i < n; i++) k->key[i] = (int32_t) v[1 + i];
+            for (int i = 0; i < n; i++) c->a[i] = 0x5A5A5A5A; c->b = 0x12345678; c->current_variance = 7.;     // a ciphertext object that was used before
             if (opc == 1) lweSymEncrypt(c, (int32_t) v[1 + n], alpha, k);
             else {   // through the gate API: a key-set shell around the LWE key
                 TLweParams *tp = new_TLweParams(1024, 1, 0., 0.25); TGswParams *gp = new_TGswParams(3, 7, tp);
@@ -91,6 +93,7 @@ int main() {
         } else if (opc == 14) {   // lweSymEncryptWithExternalNoise: n key message noise_num noise_exp
             int n = v[0]; LweParams *lp = mk_lwe_params(n, alpha, a[4]); LweKey *k = new_LweKey(lp); LweSample *c = new_LweSample(lp);
             for (int i = 0; i < n; i++) k->key[i] = (int32_t) v[1 + i];
+            for (int i = 0; i < n; i++) c->a[i] = 0x5A5A5A5A; c->b = 0x12345678; c->current_variance = 7.;
             lweSymEncryptWithExternalNoise(c, (int32_t) v[1 + n], ldexp((double) v[2 + n], -(int) v[3 + n]), alpha, k);
             dump_lwe(c, n, res); rp.U(n);
             delete_LweSample(c); delete_LweKey(k); delete_LweParams(lp);
@@ -109,6 +112,7 @@ int main() {
                 for (int i = 0; i < k; i++) for (int j = 0; j < N; j++) tk->key[i].coefs[j] = (int32_t) w[(size_t) i * N + j];
                 w += (size_t) k * N;
                 TLweSample *c = new_TLweSample(tp);
+                for (int i = 0; i <= k; i++) for (int j = 0; j < N; j++) c->a[i].coefsT[j] = 0x5A5A5A5A + j; c->current_variance = 7.;     // used before
                 if (opc == 5) { tLweSymEncryptZero(c, alpha, tk); dump_tlwe(c, k, N, res); rp.G(N, alpha); for (int i = 0; i < k; i++) rp.U(N); }
                 else if (opc == 6) { TorusPolynomial *m = new_TorusPolynomial(N); for (int j = 0; j < N; j++) m->coefsT[j] = (int32_t) w[j];
                     tLweSymEncrypt(c, m, alpha, tk); dump_tlwe(c, k, N, res); rp.G(N, alpha); for (int i = 0; i < k; i++) rp.U(N); delete_TorusPolynomial(m); }
@@ -120,6 +124,7 @@ int main() {
                     else res.push_back(tLweSymDecryptT(c, tk, M));
                 } else {
                     TGswSample *g = new_TGswSample(gp);
+                    for (int p = 0; p < (k + 1) * l; p++) { for (int i = 0; i <= k; i++) for (int j = 0; j < N; j++) g->all_sample[p].a[i].coefsT[j] = 0x3C3C3C3C - j; g->all_sample[p].current_variance = 7.; }
                     if (opc == 10) tGswSymEncryptInt(g, (int32_t) w[0], alpha, gk);
                     else { IntPolynomial *m = new_IntPolynomial(N); for (int j = 0; j < N; j++) m->coefs[j] = (int32_t) w[j]; tGswSymEncrypt(g, m, alpha, gk); delete_IntPolynomial(m); }
                     for (int p = 0; p < (k + 1) * l; p++) { dump_tlwe(&g->all_sample[p], k, N, res); rp.G(N, alpha); for (int i = 0; i < k; i++) rp.U(N); }
@@ -150,6 +155,16 @@ int main() {
             for (int r = 0; r < n * t * base; r++) dump_lwe(&ks->ks0_raw[r], nout, res);
             for (int r = 0; r < n * t * base; r++) { rp.G(1, alpha); rp.U(nout); }
             delete_LweKeySwitchKey(ks); delete_LweKey(ko); delete_LweKey(ki); delete_LweParams(lout); delete_LweParams(lin);
+        } else if (opc == 16) {   // seeding and use in different threads: n  ->  LWE key generated by a worker thread, then the masks of two encryptions made by two
+                                  // further worker threads one after the other (the seed was set by the main thread above); then the same on the main thread
+            int n = v[0]; LweParams *lp = new_LweParams(n, alpha, 0.25); LweKey *k = new_LweKey(lp); LweSample *c1 = new_LweSample(lp), *c2 = new_LweSample(lp);
+            { std::thread t([&]() { lweKeyGen(k); }); t.join(); }
+            { std::thread t([&]() { lweSymEncrypt(c1, 1 << 29, alpha, k); }); t.join(); }
+            { std::thread t([&]() { lweSymEncrypt(c2, 1 << 29, alpha, k); }); t.join(); }
+            for (int i = 0; i < n; i++) res.push_back(k->key[i]);
+            dump_lwe(c1, n, res); dump_lwe(c2, n, res);
+            rp.B(n); rp.G(1, alpha); rp.U(n); rp.G(1, alpha); rp.U(n);
+            delete_LweSample(c2); delete_LweSample(c1); delete_LweKey(k); delete_LweParams(lp);
         } else if (opc == 13) {
             int n = v[0], k = v[1], N = v[2], l = v[3], B = v[4], t = v[5], bb = v[6]; const int base = 1 << bb;
             LweParams *lp = new_LweParams(n, alpha, 0.25); TLweParams *tp = new_TLweParams(N, k, alpha2, 0.25); TGswParams *gp = new_TGswParams(l, B, tp);
